@@ -1049,42 +1049,30 @@ Qed.
 Lemma keeps_del_entry p : keeps (del_entry_ref p).
 Proof. intros []; cbn; try reflexivity; destruct (_ =? p); reflexivity. Qed.
 
-(* the entry goes, through ANY register that holds its handle (a temporary one included) *)
-Lemma entry_remove_core b sv ts rs extra a tid ri l i ci e r l' :
-  nth_error ts tid = Some (mk_slot true ri (ltree l)) -> lwf b l = true -> lcontent l = (h_f a, sv) ->
+(* the relation after the children [lo, hi) of the root are gone, entry i (and nothing else of
+   the content) among them; X is the new content *)
+Lemma rel_after_entry_cut b sv ts ts' rs F a tid ri l i ci e l' X :
+  nth_error ts tid = Some (mk_slot true ri (ltree l)) ->
   h_reg a 0 = Some Root -> (forall q, ref_ok ts tid l (reg_at rs q) (h_reg a q)) -> new_uniq rs (h_reg a) ->
   nth_entry l i = Some (ci, e) ->
-  nth_error (rs ++ extra) r = Some (Some (mk_hnd tid [ci])) ->
-  a_remove_at l ci = Some l' -> lwf b l' = true -> lcontent l' = (xstep (h_f a) (ARemoveEntry i), sv) ->
-  exists ts' F tn rn,
-    runs (entry_remove fixed r) (mk_state ts (rs ++ extra)) tt (mk_state ts' (map (option_map F) (rs ++ extra))) /\
-    F (mk_hnd tid [ci]) = mk_hnd tn [] /\ nth_error ts' tn = Some (mk_slot true rn (lentry_tree e)) /\
-    Rel b sv (mk_state ts' (map (option_map F) rs))
-        (mk_hstate (xstep (h_f a) (ARemoveEntry i)) (remap (del_entry_ref i) (h_reg a))).
+  a_remove_at l ci = Some l' -> lwf b l' = true -> lcontent l' = (X, sv) ->
+  nth_error ts' tid = Some (mk_slot true ri (ltree l')) ->
+  (forall j sl, nth_error ts j = Some sl -> j <> tid -> nth_error ts' j = Some sl) ->
+  (forall g, above tid [] g -> F g = g) ->
+  cut_map F tid [] (fst (entry_remove_range fixed (map rt l) ci)) (snd (entry_remove_range fixed (map rt l) ci)) ->
+  fst (entry_remove_range fixed (map rt l) ci) <= ci -> ci < snd (entry_remove_range fixed (map rt l) ci) ->
+  Rel b sv (mk_state ts' (map (option_map F) rs)) (mk_hstate X (remap (del_entry_ref i) (h_reg a))).
 Proof.
-  intros HT Hw Hc H0 Hok U He Hr Hal Hw' Hc'.
+  intros HT H0 Hok U He Hal Hw' Hc' T' O' A C Blo Bhi.
   destruct (nth_entry_entries _ _ _ _ He) as (lp & lq & El & Lp & Li).
-  pose proof (nth_error_Some_lt _ _ _ HT) as Hlt.
-  assert (Ecs : map rt l = map rt lp ++ lentry_tree e :: map rt lq) by (rewrite El, map_app; reflexivity).
-  assert (Lmp : length (map rt lp) = ci) by (now rewrite map_length).
-  assert (HG : get_path (ltree l) [] = Some (Node ROOT (map rt lp ++ lentry_tree e :: map rt lq))) by (cbn [get_path]; unfold ltree; now rewrite Ecs).
-  assert (Hcs : entry_remove_cs fixed (map rt lp ++ lentry_tree e :: map rt lq) (length (map rt lp)) = Ok (map rt l')).
-  { rewrite <- Ecs, Lmp, remove_at_commute, Hal. reflexivity. }
-  assert (Hr' : nth_error (rs ++ extra) r = Some (Some (mk_hnd tid ([] ++ [length (map rt lp)])))) by (rewrite Lmp; exact Hr).
-  destruct (entry_remove_spec_x ts (rs ++ extra) r tid ri (ltree l) [] ROOT (map rt lp) (lentry_tree e) (map rt lq) (map rt l') Hr' HT HG Hcs)
-    as (ts' & F & R & L & T' & O & (tn & rn & S1 & N1) & A & C & Blo & Bhi).
-  rewrite <- Ecs, Lmp in C, Blo, Bhi.
   set (lo := fst (entry_remove_range fixed (map rt l) ci)) in *. set (hi := snd (entry_remove_range fixed (map rt l) ci)) in *.
   pose proof (remove_at_range l ci l' Hal) as El'. fold lo hi in El'.
   assert (Hn : length (lentries (firstn lo l ++ skipn hi l)) + 1 = length (lentries l)).
   { rewrite <- El'. rewrite El in Hal. rewrite <- Lp in Hal. destruct (remove_at_entries _ _ _ _ Hal) as [-> _].
     rewrite El, lentries_split, !app_length. cbn [length]. lia. }
-  exists ts', F, tn, rn. split; [exact R|]. split; [rewrite Lmp in S1; exact S1|]. split; [exact N1|].
-  exists tid, ri, l'. cbn [trees regs h_f h_reg]. split; [rewrite T'; reflexivity|]. split; [exact Hw'|]. split; [exact Hc'|].
+  exists tid, ri, l'. cbn [trees regs h_f h_reg]. split; [exact T'|]. split; [exact Hw'|]. split; [exact Hc'|].
   split; [unfold remap; rewrite H0; reflexivity|].
   assert (HF : forall g, h_tid g < length ts -> h_tid g <> tid -> F g = g) by (intros g _ Hn0; apply A; now apply above_other).
-  assert (O' : forall j sl, nth_error ts j = Some sl -> j <> tid -> nth_error ts' j = Some sl).
-  { intros j sl Hj Hn0. rewrite O; [exact Hj|exact Hn0|eapply nth_error_Some_lt; exact Hj]. }
   destruct C as [Ca Cb].
   split.
   - eapply refs_transport; [apply keeps_del_entry|exact O'|exact HF|apply A, above_root| | |exact Hok].
@@ -1101,6 +1089,35 @@ Proof.
       * rewrite Ca by exact Hs. replace (hi <=? c0) with false by (symmetry; apply Nat.leb_gt; lia). reflexivity.
       * rewrite Cb by exact Hs. replace (hi <=? c0) with true by (symmetry; apply Nat.leb_le; lia). reflexivity.
   - eapply uniq_transport; [apply keeps_del_entry|exact HF|exact Hok|exact U].
+Qed.
+
+(* the entry goes, through ANY register that holds its handle (a temporary one included) *)
+Lemma entry_remove_core b sv ts rs extra a tid ri l i ci e r l' :
+  nth_error ts tid = Some (mk_slot true ri (ltree l)) -> lwf b l = true -> lcontent l = (h_f a, sv) ->
+  h_reg a 0 = Some Root -> (forall q, ref_ok ts tid l (reg_at rs q) (h_reg a q)) -> new_uniq rs (h_reg a) ->
+  nth_entry l i = Some (ci, e) ->
+  nth_error (rs ++ extra) r = Some (Some (mk_hnd tid [ci])) ->
+  a_remove_at l ci = Some l' -> lwf b l' = true -> lcontent l' = (xstep (h_f a) (ARemoveEntry i), sv) ->
+  exists ts' F tn rn,
+    runs (entry_remove fixed r) (mk_state ts (rs ++ extra)) tt (mk_state ts' (map (option_map F) (rs ++ extra))) /\
+    F (mk_hnd tid [ci]) = mk_hnd tn [] /\ nth_error ts' tn = Some (mk_slot true rn (lentry_tree e)) /\
+    Rel b sv (mk_state ts' (map (option_map F) rs))
+        (mk_hstate (xstep (h_f a) (ARemoveEntry i)) (remap (del_entry_ref i) (h_reg a))).
+Proof.
+  intros HT Hw Hc H0 Hok U He Hr Hal Hw' Hc'.
+  destruct (nth_entry_entries _ _ _ _ He) as (lp & lq & El & Lp & Li).
+  assert (Ecs : map rt l = map rt lp ++ lentry_tree e :: map rt lq) by (rewrite El, map_app; reflexivity).
+  assert (Lmp : length (map rt lp) = ci) by (now rewrite map_length).
+  assert (HG : get_path (ltree l) [] = Some (Node ROOT (map rt lp ++ lentry_tree e :: map rt lq))) by (cbn [get_path]; unfold ltree; now rewrite Ecs).
+  assert (Hcs : entry_remove_cs fixed (map rt lp ++ lentry_tree e :: map rt lq) (length (map rt lp)) = Ok (map rt l')).
+  { rewrite <- Ecs, Lmp, remove_at_commute, Hal. reflexivity. }
+  assert (Hr' : nth_error (rs ++ extra) r = Some (Some (mk_hnd tid ([] ++ [length (map rt lp)])))) by (rewrite Lmp; exact Hr).
+  destruct (entry_remove_spec_x ts (rs ++ extra) r tid ri (ltree l) [] ROOT (map rt lp) (lentry_tree e) (map rt lq) (map rt l') Hr' HT HG Hcs)
+    as (ts' & F & R & L & T' & O & (tn & rn & S1 & N1) & A & C & Blo & Bhi).
+  rewrite <- Ecs, Lmp in C, Blo, Bhi.
+  exists ts', F, tn, rn. split; [exact R|]. split; [rewrite Lmp in S1; exact S1|]. split; [exact N1|].
+  eapply (rel_after_entry_cut b sv ts ts' rs F a tid ri l i ci e l'); eauto.
+  intros j sl Hj Hn0. rewrite O; [exact Hj|exact Hn0|eapply nth_error_Some_lt; exact Hj].
 Qed.
 
 Lemma remove_entry_layout b l f sv i ci e : lwf b l = true -> lcontent l = (f, sv) -> nth_entry l i = Some (ci, e) ->
@@ -1152,6 +1169,261 @@ Proof.
     exists (0%N, Some (text (lentry_tree e))), (mk_state ts' (map (option_map F) rs)). split; [|exact HR'].
     apply runs_intro. cbn [run_op]. eapply through_gen; [exact Egk|exact R|].
     eapply reg_text_runs; [rewrite reg_at_map, Egk; cbn [option_map]; rewrite S1; reflexivity|exact N1|reflexivity].
+  - injection Ha as <- <-. apply ref_none in Hk. exists (1%N, @None str), (mk_state ts rs). split; [|exact HR].
+    apply runs_intro. cbn [run_op]. now apply through_none.
+Qed.
+
+(* ------------------------------------------------------------------ Relation::remove / Entry::remove_relation *)
+(* a cut of a list with exactly one p-element in it: where the other p-elements are afterwards *)
+Lemma count_firstn_le {A} (p : A -> bool) n l : count_if p (firstn n l) <= count_if p l.
+Proof. rewrite <- (firstn_skipn n l) at 2. rewrite count_if_app. lia. Qed.
+Lemma count_firstn_mono {A} (p : A -> bool) l a b : a <= b -> count_if p (firstn a l) <= count_if p (firstn b l).
+Proof.
+  intros H. replace (firstn a l) with (firstn a (firstn b l)) by (rewrite firstn_firstn; f_equal; lia). apply count_firstn_le.
+Qed.
+Lemma count_at {A} (p : A -> bool) n l i : nth_index p n l = Some i ->
+  count_if p (firstn i l) = n /\ count_if p (firstn (S i) l) = S n /\ i < length l.
+Proof.
+  intros H. destruct (nth_index_count p n l i H) as (pre & x & post & -> & <- & Px & <-). split; [|split].
+  - now rewrite firstn_app_len.
+  - replace (pre ++ x :: post) with ((pre ++ [x]) ++ post) by (now rewrite <- app_assoc).
+    replace (S (length pre)) with (length (pre ++ [x])) by (rewrite app_length; cbn; lia).
+    rewrite firstn_app_len, count_if_app, count_if_cons, Px. cbn. lia.
+  - rewrite app_length. cbn. lia.
+Qed.
+Lemma cut_nth_index {A} (p : A -> bool) l j cj lo hi j0 c0 :
+  nth_index p j l = Some cj -> lo <= cj -> cj < hi ->
+  count_if p (firstn lo l ++ skipn hi l) + 1 = count_if p l ->
+  nth_index p j0 l = Some c0 -> j0 <> j ->
+  (c0 < lo \/ hi <= c0) /\
+  nth_index p (if j <? j0 then j0 - 1 else j0) (firstn lo l ++ skipn hi l)
+  = Some (if hi <=? c0 then c0 - (hi - lo) else c0).
+Proof.
+  intros Hj Hlo Hhi Hn H0 Hne.
+  destruct (count_at p _ _ _ Hj) as (Cj & Cj' & Lj). destruct (count_at p _ _ _ H0) as (C0 & C0' & L0).
+  rewrite count_if_app in Hn.
+  assert (Hsk : count_if p (skipn hi l) = count_if p l - count_if p (firstn hi l)).
+  { rewrite <- (firstn_skipn hi l) at 2. rewrite count_if_app. lia. }
+  pose proof (count_firstn_mono p l lo cj Hlo) as M1. pose proof (count_firstn_mono p l (S cj) hi ltac:(lia)) as M2.
+  pose proof (count_firstn_le p hi l) as Hle.
+  assert (Clo : count_if p (firstn lo l) = j) by lia. assert (Chi : count_if p (firstn hi l) = S j) by lia.
+  destruct (nth_index_count p j0 l c0 H0) as (pre0 & x0 & post0 & El & Lp0 & Px0 & N0).
+  destruct (Nat.lt_ge_cases c0 lo) as [Hc|Hc]; [|destruct (Nat.lt_ge_cases c0 hi) as [Hc'|Hc']].
+  - split; [now left|]. pose proof (count_firstn_mono p l (S c0) lo ltac:(lia)).
+    replace (j <? j0) with false by (symmetry; apply Nat.ltb_ge; lia).
+    replace (hi <=? c0) with false by (symmetry; apply Nat.leb_gt; lia).
+    subst l. rewrite firstn_app. rewrite (firstn_all2 (n := lo)) by lia.
+    destruct (lo - length pre0) as [|d] eqn:Ed; [lia|]. cbn [firstn]. rewrite <- !app_assoc. cbn [app].
+    rewrite <- Lp0, <- N0. now apply nth_index_at.
+  - exfalso. pose proof (count_firstn_mono p l lo c0 Hc). pose proof (count_firstn_mono p l (S c0) hi ltac:(lia)). lia.
+  - split; [now right|]. pose proof (count_firstn_mono p l hi c0 Hc').
+    replace (j <? j0) with true by (symmetry; apply Nat.ltb_lt; lia).
+    replace (hi <=? c0) with true by (symmetry; apply Nat.leb_le; lia).
+    assert (Es : skipn hi l = skipn hi pre0 ++ x0 :: post0).
+    { rewrite El, skipn_app. replace (hi - length pre0) with 0 by lia. reflexivity. }
+    assert (Ef : firstn hi pre0 = firstn hi l).
+    { rewrite El, firstn_app. replace (hi - length pre0) with 0 by lia. cbn [firstn]. now rewrite app_nil_r. }
+    rewrite Es, app_assoc.
+    replace (j0 - 1) with (count_if p (firstn lo l ++ skipn hi pre0)).
+    2:{ rewrite count_if_app. assert (count_if p (skipn hi pre0) = count_if p pre0 - count_if p (firstn hi pre0)).
+        { rewrite <- (firstn_skipn hi pre0) at 2. rewrite count_if_app. lia. }
+        rewrite Ef in H1. lia. }
+    rewrite (nth_index_at p _ x0 post0 Px0). f_equal. rewrite app_length, firstn_length, skipn_length. lia.
+Qed.
+
+Local Opaque skipn.
+Lemma relation_remove_cs_range cs i cs' : relation_remove_cs cs i = Ok cs' ->
+  cs' = firstn (fst (relation_remove_range cs i)) cs ++ skipn (snd (relation_remove_range cs i)) cs.
+Proof.
+  unfold relation_remove_cs, relation_remove_range.
+  destruct (negb (existsb is_relation (firstn i cs))).
+  - destruct (relation_remove_scan_next (skipn (S i) cs)) as [k| | |]; try discriminate. intros [= <-]. cbn [fst snd].
+    f_equal. now rewrite skipn_skipn_.
+  - intros [= <-]. cbn [fst snd]. f_equal. rewrite firstn_firstn. f_equal. lia.
+Qed.
+Local Transparent skipn.
+Lemma entry_remove_range_hole v pre x y post :
+  entry_remove_range v (pre ++ x :: post) (length pre) = entry_remove_range v (pre ++ y :: post) (length pre).
+Proof. unfold entry_remove_range. now rewrite !firstn_app_len, !skipn_S_app_len. Qed.
+Lemma keeps_del_rel p q : keeps (del_rel_ref p q).
+Proof. intros []; cbn; try reflexivity. destruct (_ =? p); [destruct (_ =? q)|]; reflexivity. Qed.
+Lemma remove_rel_count e j e' : j < n_rels e -> a_remove_rel e j = Some e' -> n_rels e = S (n_rels e').
+Proof.
+  unfold a_remove_rel, n_rels. intros Hj. destruct j as [|j].
+  - destruct (e_alts e) as [|[[w1 w2] r] rest]; [discriminate|]. intros [= <-]. reflexivity.
+  - intros [= <-]. cbn [e_alts]. unfold remove_nth. rewrite app_length, firstn_length, skipn_length. lia.
+Qed.
+Lemma remove_rel_none e j : j < n_rels e -> a_remove_rel e j = None -> n_rels e = 1.
+Proof.
+  unfold a_remove_rel, n_rels. intros Hj. destruct j as [|j]; [|discriminate].
+  destruct (e_alts e) as [|[[w1 w2] r] rest]; [reflexivity|discriminate].
+Qed.
+
+Lemma remove_relation_layout b l f sv i j ci e : lwf b l = true -> lcontent l = (f, sv) -> nth_entry l i = Some (ci, e) ->
+  j < n_rels e ->
+  exists l', a_remove_relation l i j = Some l' /\ lwf b l' = true /\ lcontent l' = (xstep f (ARemoveRelation i j), sv).
+Proof.
+  intros Hw Hc He Hj. destruct (nth_entry_content _ _ _ _ _ _ Hc He) as (Hi & Hna).
+  assert (Hx : x_in_range (fst (lcontent l)) (ARemoveRelation i j) = true).
+  { rewrite Hc. cbn [fst x_in_range]. apply x_in_range_rel; [exact Hi|now rewrite Hna]. }
+  destruct (live_step_tree b (ARemoveRelation i j) l Hw eq_refl Hx) as (l' & Ha & _ & Hw' & Hc' & _).
+  exists l'. rewrite Hc', Hc. auto.
+Qed.
+
+(* the alternative goes (and the entry with it when it was the only one), through ANY register
+   that holds its handle *)
+Lemma relation_remove_core b sv ts rs extra a tid ri l i j ci e cj r l' :
+  nth_error ts tid = Some (mk_slot true ri (ltree l)) -> lwf b l = true -> lcontent l = (h_f a, sv) ->
+  h_reg a 0 = Some Root -> (forall q, ref_ok ts tid l (reg_at rs q) (h_reg a q)) -> new_uniq rs (h_reg a) ->
+  nth_entry l i = Some (ci, e) -> nth_index is_relation j (lentry_children e) = Some cj ->
+  nth_error (rs ++ extra) r = Some (Some (mk_hnd tid [ci; cj])) ->
+  a_remove_relation l i j = Some l' -> lwf b l' = true -> lcontent l' = (xstep (h_f a) (ARemoveRelation i j), sv) ->
+  exists ts' F tn rn x esl ecs,
+    runs (relation_remove fixed r) (mk_state ts (rs ++ extra)) tt (mk_state ts' (map (option_map F) (rs ++ extra))) /\
+    F (mk_hnd tid [ci; cj]) = mk_hnd tn [] /\ nth_error ts' tn = Some (mk_slot true rn x) /\
+    nth_error ts' (h_tid (F (mk_hnd tid [ci]))) = Some esl /\
+    get_path (s_tree esl) (h_path (F (mk_hnd tid [ci]))) = Some (Node ENTRY ecs) /\
+    Rel b sv (mk_state ts' (map (option_map F) rs))
+        (mk_hstate (xstep (h_f a) (ARemoveRelation i j))
+                   (remap (if n_alts (h_f a) i =? 1 then del_entry_ref i else del_rel_ref i j) (h_reg a))).
+Proof.
+  intros HT Hw Hc H0 Hok U He Hj Hr Hal Hw' Hc'.
+  destruct (nth_entry_entries _ _ _ _ He) as (lp & lq & El & Lp & Li).
+  pose proof (nth_error_Some_lt _ _ _ HT) as Hlt.
+  pose proof (rel_slot_inv _ _ _ Hj) as Hjn.
+  assert (Hjb : j <? n_rels e = true) by now apply Nat.ltb_lt.
+  destruct (nth_rel_some e j Hjb) as (r0 & Hr0).
+  destruct (entry_rel_split e j r0 Hr0) as (rp & rq & Ech & Hn & Hupd).
+  assert (cj = length rp) by congruence. subst cj.
+  destruct (nth_entry_content _ _ _ _ _ _ Hc He) as (Hi & Hna). rewrite Hna.
+  unfold a_remove_relation in Hal. rewrite He, Hjb in Hal.
+  assert (Lmp : length (map rt lp) = ci) by (now rewrite map_length).
+  assert (HGp : get_path (ltree l) [] = Some (Node ROOT (map rt lp ++ Node ENTRY (rp ++ lrel_tree r0 :: rq) :: map rt lq))).
+  { cbn [get_path]. unfold ltree. rewrite El, map_app. cbn [map relem_tree]. unfold lentry_tree. now rewrite Ech. }
+  pose proof (remove_rel_commute e j r0 rp rq Hr0 Ech Hn) as Hcs. rewrite Ech in Hcs.
+  assert (Hr' : nth_error (rs ++ extra) r = Some (Some (mk_hnd tid (([] ++ [length (map rt lp)]) ++ [length rp]))))
+    by (rewrite Lmp; exact Hr).
+  destruct (a_remove_rel e j) as [e'|] eqn:Erm.
+  - (* alternatives remain *)
+    injection Hal as <-.
+    assert (Hecs : (if count_if is_relation (lentry_children e') =? 0
+                    then entry_remove_cs fixed (map rt lp ++ Node ENTRY (lentry_children e') :: map rt lq) (length (map rt lp))
+                    else Ok (map rt lp ++ Node ENTRY (lentry_children e') :: map rt lq))
+                   = Ok (map rt lp ++ Node ENTRY (lentry_children e') :: map rt lq))
+      by (now rewrite count_relations_lentry).
+    destruct (relation_remove_spec_x ts (rs ++ extra) r tid ri (ltree l) [] ROOT (map rt lp) (map rt lq) rp (lrel_tree r0) rq _ _ Hr' HT HGp Hcs Hecs)
+      as (ts' & F & R & L & T' & O & (tn & rn & S1 & N1) & (esl & Es1 & Es2) & A & X).
+    rewrite count_relations_lentry in X. destruct X as (C & Blo & Bhi & Ae). rewrite Lmp in *. cbn [app] in *.
+    assert (ET : upd_path (ltree l) [] (fun _ => Node ROOT (map rt lp ++ Node ENTRY (lentry_children e') :: map rt lq))
+                 = ltree (replace_at ci (RE e') l)).
+    { cbn [upd_path]. rewrite El, <- Lp, replace_at_split. unfold ltree. rewrite map_app. reflexivity. }
+    rewrite ET in T'.
+    exists ts', F, tn, rn, (lrel_tree r0), esl, (lentry_children e').
+    split; [exact R|]. split; [exact S1|]. split; [exact N1|]. split; [exact Es1|]. split; [exact Es2|].
+    pose proof (remove_rel_count e j e' Hjn Erm) as Hcount.
+    replace (n_rels e =? 1) with false by (symmetry; apply Nat.eqb_neq; unfold n_rels in *; lia).
+    exists tid, ri, (replace_at ci (RE e') l). cbn [trees regs h_f h_reg].
+    split; [exact T'|]. split; [exact Hw'|]. split; [exact Hc'|]. split; [unfold remap; rewrite H0; reflexivity|].
+    assert (HF : forall g, h_tid g < length ts -> h_tid g <> tid -> F g = g) by (intros g _ Hn0; apply A; now apply above_other).
+    assert (O' : forall j0 sl, nth_error ts j0 = Some sl -> j0 <> tid -> nth_error ts' j0 = Some sl).
+    { intros j0 sl Hj0 Hn0. rewrite O; [exact Hj0|exact Hn0|eapply nth_error_Some_lt; exact Hj0]. }
+    pose proof (relation_remove_cs_range _ _ _ Hcs) as Ecs'.
+    set (lo := fst (relation_remove_range (rp ++ lrel_tree r0 :: rq) (length rp))) in *.
+    set (hi := snd (relation_remove_range (rp ++ lrel_tree r0 :: rq) (length rp))) in *.
+    rewrite <- Ech in Ecs'.
+    assert (Hcnt : count_if is_relation (firstn lo (lentry_children e) ++ skipn hi (lentry_children e)) + 1
+                   = count_if is_relation (lentry_children e)).
+    { rewrite <- Ecs', !count_relations. lia. }
+    destruct C as [Ca Cb].
+    split.
+    + eapply refs_transport; [apply keeps_del_rel|exact O'|exact HF|apply A, above_root| | |exact Hok].
+      * intros i0 c0 e0 H1. cbn [del_rel_ref ref_ok]. exists c0, (if i0 =? i then e' else e0).
+        split; [now apply (nth_entry_replace l i ci e)|]. f_equal. apply Ae.
+        destruct (Nat.eq_dec c0 ci) as [->|Hne]; [apply above_self|]. apply (above_sibling tid [] ci c0 [] []). congruence.
+      * intros i0 j0 c0 e0 cj0 H1 Hj0. cbn [del_rel_ref]. destruct (Nat.eq_dec c0 ci) as [->|Hne].
+        -- destruct (nth_entry_inj _ _ _ _ _ _ He H1) as [-> ->]. rewrite Nat.eqb_refl.
+           destruct (j0 =? j) eqn:Ej; [exact I|]. apply Nat.eqb_neq in Ej.
+           destruct (cut_nth_index is_relation (lentry_children e) j (length rp) lo hi j0 cj0 Hn Blo Bhi Hcnt Hj0 Ej) as (Hside & Hpos).
+           rewrite <- Ecs' in Hpos. cbn [ref_ok]. eexists ci, e', _. split; [|split; [exact Hpos|]].
+           ++ rewrite (nth_entry_replace l i ci e e' i ci e He He). now rewrite Nat.eqb_refl.
+           ++ change [ci; cj0] with ([ci] ++ cj0 :: []). destruct Hside as [Hs|Hs].
+              ** rewrite Ca by exact Hs. replace (hi <=? cj0) with false by (symmetry; apply Nat.leb_gt; lia). reflexivity.
+              ** rewrite Cb by exact Hs. replace (hi <=? cj0) with true by (symmetry; apply Nat.leb_le; lia). reflexivity.
+        -- assert (Ei : i0 =? i = false).
+           { apply Nat.eqb_neq. intros ->. rewrite He in H1. congruence. }
+           rewrite Ei. cbn [ref_ok]. exists c0, e0, cj0. split; [|split; [exact Hj0|]].
+           ++ rewrite (nth_entry_replace l i ci e e' i0 c0 e0 He H1). now rewrite Ei.
+           ++ f_equal. apply Ae. apply (above_sibling tid [] ci c0 [] [cj0]). congruence.
+    + eapply uniq_transport; [apply keeps_del_rel|exact HF|exact Hok|exact U].
+  - (* the only alternative: the entry goes as well *)
+    assert (Hecs : (if count_if is_relation [] =? 0
+                    then entry_remove_cs fixed (map rt lp ++ Node ENTRY [] :: map rt lq) (length (map rt lp))
+                    else Ok (map rt lp ++ Node ENTRY [] :: map rt lq)) = Ok (map rt l')).
+    { cbn [count_if filter length Nat.eqb].
+      rewrite (entry_remove_cs_hole fixed (map rt lp) (Node ENTRY []) (rt (RE e)) (map rt lq)).
+      change (map rt lp ++ rt (RE e) :: map rt lq) with (map rt lp ++ map rt (RE e :: lq)). rewrite <- map_app, <- El.
+      rewrite map_length, Lp, remove_at_commute, Hal. reflexivity. }
+    destruct (relation_remove_spec_x ts (rs ++ extra) r tid ri (ltree l) [] ROOT (map rt lp) (map rt lq) rp (lrel_tree r0) rq _ _ Hr' HT HGp Hcs Hecs)
+      as (ts' & F & R & L & T' & O & (tn & rn & S1 & N1) & (esl & Es1 & Es2) & A & X).
+    cbn [count_if filter length Nat.eqb] in X. destruct X as (C & Blo & Bhi). rewrite Lmp in *. cbn [app] in *.
+    rewrite <- Lmp in C, Blo, Bhi.
+    rewrite (entry_remove_range_hole fixed (map rt lp) (Node ENTRY []) (rt (RE e)) (map rt lq)) in C, Blo, Bhi.
+    change (map rt lp ++ rt (RE e) :: map rt lq) with (map rt lp ++ map rt (RE e :: lq)) in C, Blo, Bhi.
+    rewrite <- map_app, <- El, Lmp in C, Blo, Bhi.
+    exists ts', F, tn, rn, (lrel_tree r0), esl, [].
+    split; [exact R|]. split; [exact S1|]. split; [exact N1|]. split; [exact Es1|]. split; [exact Es2|].
+    rewrite (remove_rel_none e j Hjn Erm). cbn [Nat.eqb].
+    eapply (rel_after_entry_cut b sv ts ts' rs F a tid ri l i ci e l'); eauto.
+    intros j0 sl Hj0 Hn0. rewrite O; [exact Hj0|exact Hn0|eapply nth_error_Some_lt; exact Hj0].
+Qed.
+
+Lemma step_rremove b sv st a m a' tr : Rel b sv st a -> h_op (ORRemove m) a = Some (a', tr) ->
+  exists out st', run_op fixed (ORRemove m) st = Ok (out, st') /\ Rel b sv st' a'.
+Proof.
+  destruct st as [ts rs]. intros HR Ha. pose proof HR as (tid & ri & l & HT & Hw & Hc & H0 & Hok & U). cbn [trees regs] in *.
+  cbn [h_op] in Ha. pose proof (Hok (rreg m)) as Hm. destruct (h_reg a (rreg m)) as [x|] eqn:Ex.
+  - destruct x; try discriminate.
+    destruct (reg_at rs (rreg m)) as [gm|] eqn:Egm; [|contradiction]. cbn [ref_ok] in Hm. destruct Hm as (ci & e & cj & He & Hj & ->).
+    pose proof (rel_slot_inv _ _ _ Hj) as Hjn. destruct (nth_entry_content _ _ _ _ _ _ Hc He) as (Hi & Hna).
+    rewrite Hna in Ha. replace (j <? n_rels e) with true in Ha by (symmetry; now apply Nat.ltb_lt). injection Ha as <- <-.
+    destruct (remove_relation_layout b l _ sv i j ci e Hw Hc He Hjn) as (l' & Hal & Hw' & Hc').
+    assert (Hr : nth_error (rs ++ []) (rreg m) = Some (Some (mk_hnd tid [ci; cj]))) by (rewrite app_nil_r; now apply reg_at_nth).
+    destruct (relation_remove_core b sv ts rs [] a tid ri l i j ci e cj (rreg m) l' HT Hw Hc H0 Hok U He Hj Hr Hal Hw' Hc')
+      as (ts' & F & tn & rn & x & esl & ecs & R & S1 & N1 & _ & _ & HR'). rewrite app_nil_r in R. rewrite Hna in HR'.
+    exists (0%N, Some (text x)), (mk_state ts' (map (option_map F) rs)). split; [|exact HR'].
+    apply runs_intro. cbn [run_op]. eapply through_gen; [exact Egm|exact R|].
+    eapply reg_text_runs; [rewrite reg_at_map, Egm; cbn [option_map]; rewrite S1; reflexivity|exact N1|reflexivity].
+  - injection Ha as <- <-. apply ref_none in Hm. exists (1%N, @None str), (mk_state ts rs). split; [|exact HR].
+    apply runs_intro. cbn [run_op]. now apply through_none.
+Qed.
+
+Lemma step_eremove_rel b sv st a k j a' tr : Rel b sv st a -> h_op (OERemoveRel k j) a = Some (a', tr) ->
+  exists out st', run_op fixed (OERemoveRel k j) st = Ok (out, st') /\ Rel b sv st' a'.
+Proof.
+  destruct st as [ts rs]. intros HR Ha. pose proof HR as (tid & ri & l & HT & Hw & Hc & H0 & Hok & U). cbn [trees regs] in *.
+  cbn [h_op] in Ha. pose proof (Hok (ereg k)) as Hk. destruct (h_reg a (ereg k)) as [x|] eqn:Ex.
+  - destruct x; try discriminate.
+    destruct (reg_at rs (ereg k)) as [gk|] eqn:Egk; [|contradiction]. cbn [ref_ok] in Hk. destruct Hk as (ci & e & He & ->).
+    destruct (nth_entry_content _ _ _ _ _ _ Hc He) as (Hi & Hna).
+    destruct (j <? n_alts (h_f a) i) eqn:Ej; [|discriminate]. injection Ha as <- <-.
+    apply Nat.ltb_lt in Ej. rewrite Hna in Ej. destruct (rel_slot_lt e j Ej) as (cj & Hj).
+    destruct (remove_relation_layout b l _ sv i j ci e Hw Hc He Ej) as (l' & Hal & Hw' & Hc').
+    destruct (relation_remove_core b sv ts rs [Some (mk_hnd tid [ci; cj])] a tid ri l i j ci e cj (length rs) l' HT Hw Hc H0 Hok U He Hj
+                (nth_error_app_at _ _) Hal Hw' Hc')
+      as (ts' & F & tn & rn & x & esl & ecs & R & S1 & N1 & Es1 & Es2 & HR').
+    exists (0%N, Some (text (Node ENTRY ecs))), (mk_state ts' (map (option_map F) rs)). split; [|exact HR'].
+    apply runs_intro. cbn [run_op]. eapply through_gen; [exact Egk| |].
+    + rbind; [|rdone]. unfold entry_remove_relation. eapply runs_eq; [apply runs_scoped|reflexivity|].
+      * rbind; [eapply nth_child_runs; [exact Egk|exact HT|apply (get_path_entry _ _ _ _ He)]|].
+        cbn [lentry_tree children]. rewrite Hj. cbn [option_map app].
+        rbind; [apply runs_push_tmp|]. rbind; [exact R|].
+        unfold node_of_reg. rbind.
+        { rbind; [apply runs_get_reg; rewrite nth_error_map, nth_error_app_at; cbn [option_map]; rewrite S1; reflexivity|].
+          eapply runs_node_of; [exact N1|reflexivity]. }
+        rdone.
+      * cbn [regs]. now rewrite firstn_map_app_len.
+    + destruct (F (mk_hnd tid [ci])) as [et ep] eqn:EF. cbn [h_tid h_path] in Es1, Es2.
+      eapply reg_text_runs; [rewrite reg_at_map, Egk; cbn [option_map]; rewrite EF; reflexivity|exact Es1|exact Es2].
   - injection Ha as <- <-. apply ref_none in Hk. exists (1%N, @None str), (mk_state ts rs). split; [|exact HR].
     apply runs_intro. cbn [run_op]. now apply through_none.
 Qed.
